@@ -447,7 +447,31 @@ func (a *Act) loopEnv0(li *loopInfo, st *State, mode string, from *ssa.BasicBloc
 				}
 			}
 		}
+		if strings.HasPrefix(name, "$seen") && len(name) > 5 {
+			// $seenN: the seen-set of the map range of loop N (an enclosing loop)
+			n := 0
+			fmt.Sscanf(name[5:], "%d", &n)
+			for _, l2 := range a.loops {
+				if l2.ord != n {
+					continue
+				}
+				for _, ins := range l2.head.Instrs {
+					if nx, ok := ins.(*ssa.Next); ok {
+						if s, ok := st.seen[nx.Iter]; ok {
+							return SVal{T: s, Sort: a.seenSort(nx.Iter)}, true
+						}
+					}
+				}
+			}
+		}
 		if name == "$seen" || name == "$pos" {
+			for _, ins := range li.head.Instrs {
+				if nx, ok := ins.(*ssa.Next); ok {
+					if s, ok := st.seen[nx.Iter]; ok {
+						return SVal{T: s, Sort: a.seenSort(nx.Iter)}, true
+					}
+				}
+			}
 			for _, b := range a.fn.Blocks {
 				if !li.blocks[b] {
 					continue
